@@ -25,6 +25,9 @@ class Invalid(Exception):
 
 
 def num(x):
+    if isinstance(x, dict) and x.get('$') == 'frac':
+        import fractions
+        return fractions.Fraction(x['n'], x['d'])
     return INF if x == 'inf' else x
 
 
@@ -40,7 +43,8 @@ class Model:
         self.program = program
         self.triggers = triggers or {}   # extra notification kinds: name -> fn(t0) -> trigger time
         till = program.get('till')
-        deadline = INF if till is None else self.T(till)
+        # (run(till=t) ends the run at the moment t: a date before the start time is never reached)
+        deadline = INF if till is None or self.T(till) < self.start else self.T(till)
         self.ends = {}
         for name, script in program['roots']:
             self.begins[name] = (self.start, deadline)
@@ -56,7 +60,7 @@ class Model:
         if k == 'C':
             return self.trigger(self.program['conds'][e[1]], t0)
         if k == 'DELAY':
-            return t0 + e[1]
+            return t0 + num(e[1])
         if k == 'GE':
             return max(self.T(e[1]), t0)
         if k == 'EQ':
